@@ -601,3 +601,171 @@ Proof.
   - unfold tmpl_shape in Hs. apply canon_spec in Hs. destruct Hs as [_ [_ Hlex]].
     apply (subst_good precs (wraps ts precs) (wraps_good _ _ G) (wraps_lvl ts precs) s Hw Hlex).
 Qed.
+
+(* ---------------------------------------------------------------------------------------------- *)
+(* the table obligation: every entry of the regenerated callMigrators table is closed *)
+
+Definition entry_closed (e : text * cmig) : Prop :=
+  match snd e with
+  | AsIs => name_ok3 (fst e) = true
+  | Rename n => name_ok3 n = true
+  | Template f precs => tmpl_closed f precs
+  | Join sep p => exists o, join_op sep = Some o /\ p = prec o
+  | Params n defaults pms => name_ok3 n = true
+  end.
+
+Ltac solve_tmpl :=
+  split; [vm_compute; repeat constructor |
+    eexists; split; [vm_compute; reflexivity | split; [vm_compute; reflexivity |
+      let ts := fresh "ts" in let H := fresh "H" in
+      intros ts H; vm_compute in H;
+      repeat (destruct ts as [|? ts]; cbn [length] in H; try (exfalso; lia));
+      cbn; norm_app; rewrite ?app_nil_r; reflexivity]]].
+
+Ltac solve_entry :=
+  cbn [entry_closed snd fst];
+  first [ reflexivity
+        | solve_tmpl
+        | (eexists; split; [vm_compute; reflexivity | reflexivity]) ].
+
+Lemma templates_closed : Forall entry_closed legacy_table.
+Proof.
+  unfold legacy_table.
+  repeat (apply Forall_cons; [solve_entry|]). apply Forall_nil.
+Qed.
+
+Lemma lookup_In {A} k (l : list (text * A)) v : lookup k l = Some v -> exists k', In (k', v) l /\ k = k'.
+Proof.
+  induction l as [|[k0 v0] r IH]; cbn [lookup]; [discriminate|].
+  destruct (text_eqb k k0) eqn:E.
+  - intros H; inversion H; subst. exists k0. split; [left; reflexivity | apply text_eqb_eq; exact E].
+  - intros H. destruct (IH H) as (k' & Hin & Hk). exists k'. split; [right; exact Hin | exact Hk].
+Qed.
+
+(* ---------------------------------------------------------------------------------------------- *)
+(* the intended tree of a call *)
+
+Definition call_tree (fname : text) (ts : list e3) : option e3 :=
+  match lookup fname legacy_table with
+  | None => if name_ok3 fname then Some (call3 fname ts) else None
+  | Some AsIs => Some (call3 fname ts)
+  | Some (Rename n) => Some (call3 n ts)
+  | Some (Template f precs) => tmpl_tree f precs ts
+  | Some (Join sep p) => match join_op sep with Some o => join_tree o ts | None => None end
+  | Some (Params n defaults pms) =>
+      if Nat.leb (length ts) (length pms) then option_map (call3 n) (params_tree pms ts defaults) else None
+  end.
+
+Lemma call_ok fname ts t :
+  Forall good ts -> call_tree fname ts = Some t ->
+  migrate_call fname (map print3 ts) = print3 t /\ good t.
+Proof.
+  intros G H. unfold call_tree in H. unfold migrate_call, migrate_call_with.
+  destruct (lookup fname legacy_table) as [m|] eqn:El.
+  - destruct (lookup_In _ _ _ El) as (k' & Hin & Hk). subst k'.
+    pose proof templates_closed as TC. rewrite Forall_forall in TC. specialize (TC _ Hin).
+    unfold entry_closed in TC. cbn [fst snd] in TC.
+    destruct m as [|n|f precs|sep p|n defaults pms].
+    + inversion H; subst t. split; [symmetry; apply print3_call3 | apply good_call3; assumption].
+    + inversion H; subst t. split; [symmetry; apply print3_call3 | apply good_call3; assumption].
+    + apply (tmpl_ok f precs ts t TC G H).
+    + destruct TC as (o & Ho & Hp). rewrite Ho in H. subst p. apply (join_ok sep o ts t Ho G H).
+    + rewrite map_length. destruct (Nat.leb (length ts) (length pms)) eqn:E; [|discriminate].
+      apply Nat.leb_le in E.
+      assert (E' : Nat.ltb (length pms) (length ts) = false) by (apply Nat.ltb_ge; exact E). rewrite E'.
+      destruct (params_tree pms ts defaults) as [ps|] eqn:Ep; [|discriminate].
+      cbn [option_map] in H. inversion H; subst t.
+      destruct (params_tree_ok _ _ _ _ G Ep) as [P Gp].
+      rewrite P. split; [symmetry; apply print3_call3 | apply good_call3; assumption].
+  - destruct (name_ok3 fname) eqn:En; [|discriminate]. inversion H; subst t.
+    split; [symmetry; apply print3_call3 | apply good_call3; assumption].
+Qed.
+
+(* ---------------------------------------------------------------------------------------------- *)
+(* the intended tree of a legacy expression, and the main lemma *)
+
+Fixpoint all_some {A} (l : list (option A)) : option (list A) :=
+  match l with
+  | [] => Some []
+  | Some x :: r => match all_some r with Some xs => Some (x :: xs) | None => None end
+  | None :: _ => None
+  end.
+
+Section Main.
+  Variable ctxmap : text -> text.
+  Variable raw_dates : bool.
+
+  Fixpoint mt (e : e1) : option e3 :=
+    match e with
+    | E1Dec raw => if num_ok raw then Some (X3Num raw) else None
+    | E1Str raw => let m := migrate_string_literal raw in if text_ok m then Some (X3Text m) else None
+    | E1True => Some X3True
+    | E1False => Some X3False
+    | E1Ref n => canon (ctxmap n)
+    | E1Paren x => option_map X3Paren (mt x)
+    | E1Neg x => option_map (fun t => X3Neg (wrap t 7)) (mt x)
+    | E1Bin o a b =>
+        match mt a, mt b with
+        | Some ta, Some tb =>
+            Some (match o with
+                  | OAdd => additive_tree raw_dates false (print3 ta) (print3 tb) ta tb
+                  | OSub => additive_tree raw_dates true (print3 ta) (print3 tb) ta tb
+                  | _ => X3Bin o (wrap ta (prec o)) (wrap tb (S (prec o)))
+                  end)
+        | _, _ => None
+        end
+    | E1Call f args =>
+        match all_some (map mt args) with
+        | Some ts => call_tree (lower f) ts
+        | None => None
+        end
+    end.
+
+  Lemma all_some_ok args : 
+    Forall (fun a => forall t, mt a = Some t -> visit ctxmap raw_dates a = print3 t /\ good t) args ->
+    forall ts, all_some (map mt args) = Some ts ->
+    map (visit ctxmap raw_dates) args = map print3 ts /\ Forall good ts.
+  Proof.
+    induction 1 as [|a r Ha Hr IH]; intros ts H; cbn [map all_some] in H.
+    - inversion H; subst. split; [reflexivity|constructor].
+    - destruct (mt a) as [ta|] eqn:Ea; [|discriminate].
+      destruct (all_some (map mt r)) as [xs|] eqn:Er; [|discriminate].
+      inversion H; subst ts. destruct (Ha ta eq_refl) as [P G]. destruct (IH xs eq_refl) as [P' G'].
+      split; [cbn [map]; rewrite P, P'; reflexivity | constructor; assumption].
+  Qed.
+
+  Lemma visit_mt : forall e t, mt e = Some t -> visit ctxmap raw_dates e = print3 t /\ good t.
+  Proof.
+    induction e using e1_ind'; intros t Hmt; cbn [mt visit] in *.
+    - (* string literal *)
+      destruct (text_ok (migrate_string_literal raw)) eqn:E; [|discriminate]. inversion Hmt; subst.
+      split; [reflexivity | split; [reflexivity | exact E]].
+    - destruct (num_ok raw) eqn:E; [|discriminate]. inversion Hmt; subst.
+      split; [reflexivity | split; [reflexivity | exact E]].
+    - inversion Hmt; subst. split; [reflexivity | split; reflexivity].
+    - inversion Hmt; subst. split; [reflexivity | split; reflexivity].
+    - apply canon_spec in Hmt. exact Hmt.
+    - destruct (mt e) as [te|]; [|discriminate]. cbn [option_map] in Hmt. inversion Hmt; subst.
+      destruct (IHe te eq_refl) as [P [W L]]. split; [cbn [print3]; rewrite P; reflexivity | split; assumption].
+    - destruct (mt e) as [te|]; [|discriminate]. cbn [option_map] in Hmt. inversion Hmt; subst.
+      destruct (IHe te eq_refl) as [P G]. change prec_negation with 7%nat. rewrite P, as_operand_print by assumption.
+      split; [reflexivity|]. apply good_neg; [apply good_wrap; assumption | apply wrap_lvl; lia].
+    - destruct (mt e1) as [ta|]; [|discriminate]. destruct (mt e2) as [tb|]; [|discriminate].
+      destruct (IHe1 ta eq_refl) as [Pa Ga]. destruct (IHe2 tb eq_refl) as [Pb Gb].
+      inversion Hmt; subst t. rewrite Pa, Pb.
+      assert (Gen : forall o', as_operand (print3 ta) (go_prec_of_op o') ++ 32 :: op_text o' ++ 32 :: as_operand (print3 tb) (S (go_prec_of_op o'))
+                     = print3 (X3Bin o' (wrap ta (prec o')) (wrap tb (S (prec o'))))
+                    /\ good (X3Bin o' (wrap ta (prec o')) (wrap tb (S (prec o'))))).
+      { intros o'. rewrite go_prec_of_op_is_prec, !as_operand_print by assumption. split; [reflexivity|].
+        apply good_bin; try (apply good_wrap; assumption); apply wrap_lvl; pose proof (prec_le_7 o'); lia. }
+      destruct o; try apply Gen; apply additive_ok; assumption.
+    - destruct (all_some (map mt args)) as [ts|] eqn:Ea; [|discriminate].
+      destruct (all_some_ok args H ts Ea) as [P G]. rewrite P. apply call_ok; assumption.
+  Qed.
+
+  (* the migrated text re-parses to the intended tree *)
+  Theorem grouping : forall e t, mt e = Some t -> parse3 (visit ctxmap raw_dates e) = Some t.
+  Proof.
+    intros e t H. destruct (visit_mt e t H) as [P [W L]]. rewrite P. apply parse3_print3; assumption.
+  Qed.
+End Main.
